@@ -92,7 +92,7 @@ static Plan gen_rand(uint64_t seed, const Op &opts) {
         Op o; o.kind = "op"; o.set("k", k).setu("s", r.next());
         if (k == "reseed") o.seti("hist", (int) r.below(8)).seti("thread", (int) r.below(2)).seti("variant", (int) r.below(6));
         if (k == "lwe" || k == "tlwe" || k == "tgsw") o.seti("ai", (int) r.below(NALPHA)).seti("cnt", k == "lwe" ? 400 : k == "tlwe" ? 3 : 1).seti("n", (int) (k == "lwe" ? (r.bern(0.5) ? 630 : 1 + r.below(64)) : 0)).seti("rk", 1 + (int) r.below(2));
-        if (k == "gate") o.seti("cnt", 200);
+        if (k == "gate") o.seti("cnt", 1500);
         p.ops.push_back(o);
     }
     return p;
@@ -211,7 +211,7 @@ static void exec_rand(const Plan &p, RunResult &r) {
                 int32_t e = sdiff(obs::lwe_phase(c, K->s.data(), K->n), (uint32_t) (bit ? T_1s8 : -T_1s8));
                 if (au > 0) acc.add((double) e / au);
             }
-            put(r, std::string("z.gate.") + sp.name, acc);
+            put(r, std::string("z.gate.") + sp.name + fmt(".%g", alpha), acc);
             delete_gate_bootstrapping_ciphertext(c); delete_gate_bootstrapping_ciphertext(d);
         } else if (k == "keys") {
             // every row of the generated key-switching and bootstrapping keys
